@@ -235,6 +235,7 @@ func c01r3(p *Program, r *Report) {
 	// head := readHeader(...)
 	var headObj, callObj types.Object
 	var lookupKey ast.Expr
+	var lookupFn *FuncInfo
 	ast.Inspect(fi.Decl.Body, func(n ast.Node) bool {
 		as, ok := n.(*ast.AssignStmt)
 		if !ok || len(as.Rhs) != 1 {
@@ -255,6 +256,7 @@ func c01r3(p *Program, r *Report) {
 		case *ast.IndexExpr:
 			if p.isField(info, rhs.X, "Conn", "calls") {
 				lookupKey = rhs.Index
+				lookupFn = fi
 				if id, ok := as.Lhs[0].(*ast.Ident); ok {
 					callObj = info.Defs[id]
 				}
@@ -262,6 +264,73 @@ func c01r3(p *Program, r *Report) {
 		}
 		return true
 	})
+	// the lookup may live in a private helper of recv (`call, ok := c.takeCall(head.stream)`): the key is then the
+	// helper's parameter (resolved to the argument) and the call object the variable that receives the result
+	if lookupKey == nil {
+		for _, h := range p.privateCallees(fi) {
+			hinfo := h.Pkg.TypesInfo
+			var hvar types.Object
+			ast.Inspect(h.Decl.Body, func(n ast.Node) bool {
+				as, ok := n.(*ast.AssignStmt)
+				if !ok || len(as.Rhs) != 1 {
+					return true
+				}
+				if ix, ok := ast.Unparen(as.Rhs[0]).(*ast.IndexExpr); ok && p.isField(hinfo, ix.X, "Conn", "calls") {
+					lookupKey, lookupFn = ix.Index, h
+					if id, ok := as.Lhs[0].(*ast.Ident); ok {
+						hvar = hinfo.Defs[id]
+						if hvar == nil {
+							hvar = hinfo.Uses[id]
+						}
+					}
+				}
+				return true
+			})
+			if lookupFn != h || hvar == nil {
+				continue
+			}
+			// which result of the helper carries the looked-up call?
+			resIdx := -1
+			for _, e := range p.GraphOf(h).Exits() {
+				if rs, ok := e.Node.(*ast.ReturnStmt); ok {
+					for i, res := range rs.Results {
+						if isIdentOf(hinfo, res, hvar) {
+							resIdx = i
+						}
+					}
+					if len(rs.Results) == 0 && h.Decl.Type.Results != nil {
+						// named results
+						k := 0
+						for _, f := range h.Decl.Type.Results.List {
+							for _, nm := range f.Names {
+								if hinfo.Defs[nm] == hvar {
+									resIdx = k
+								}
+								k++
+							}
+						}
+					}
+				}
+			}
+			ast.Inspect(fi.Decl.Body, func(n ast.Node) bool {
+				as, ok := n.(*ast.AssignStmt)
+				if !ok || len(as.Rhs) != 1 || resIdx < 0 || resIdx >= len(as.Lhs) {
+					return true
+				}
+				if c, ok := ast.Unparen(as.Rhs[0]).(*ast.CallExpr); ok {
+					if fn := calleeOf(info, c); fn != nil && p.FuncOf(fn) == h {
+						if id, ok := as.Lhs[resIdx].(*ast.Ident); ok {
+							callObj = info.Defs[id]
+							if callObj == nil {
+								callObj = info.Uses[id]
+							}
+						}
+					}
+				}
+				return true
+			})
+		}
+	}
 	if headObj == nil {
 		r.Unresolved("recv: no local variable defined from readHeader(...)")
 		return
@@ -275,10 +344,21 @@ func c01r3(p *Program, r *Report) {
 		r.Unresolved("recv: no `call, ok := c.calls[...]` lookup")
 		return
 	}
-	isHeadStream := func(e ast.Expr) bool {
-		sel, ok := ast.Unparen(e).(*ast.SelectorExpr)
-		return ok && p.isField(info, sel, "frameHeader", "stream") && isIdentOf(info, sel.X, headObj)
+	// a key is the header's stream id when, followed through local copies and helper parameters, it is head.stream
+	recvFn, recvInfo := fi, info
+	isHeadStreamIn := func(fn *FuncInfo, e ast.Expr) bool {
+		rf, re := p.resolveValue(fn, e, 0)
+		if rf != recvFn {
+			return false
+		}
+		sel, ok := ast.Unparen(re).(*ast.SelectorExpr)
+		return ok && p.isField(recvInfo, sel, "frameHeader", "stream") && isIdentOf(recvInfo, sel.X, headObj)
 	}
+	isHeadStream := func(e ast.Expr) bool { return isHeadStreamIn(lookupFn, e) }
+	g = p.GraphOf(lookupFn)
+	fiOuter := fi
+	fi = lookupFn
+	info = g.Info
 	r.Check(isHeadStream(lookupKey), lookupKey, "(*Conn).recv lookup key", "call looked up by the stream field of the header just read", "the call is looked up under "+exprStr(lookupKey)+", not under the stream id of the header just read")
 	// same critical section for lookup and delete
 	locks := g.Lockset()
@@ -320,6 +400,9 @@ func c01r3(p *Program, r *Report) {
 	if ndel == 0 {
 		r.Bad(fi.Decl, "(*Conn).recv delete from calls", "recv never removes the delivered call from c.calls: a late duplicate frame is delivered to it again")
 	}
+	fi = fiOuter
+	g = p.GraphOf(fi)
+	info = g.Info
 	// readFrame calls take &head
 	nrf := 0
 	ast.Inspect(fi.Decl.Body, func(n ast.Node) bool {
@@ -395,13 +478,8 @@ func c01r4(p *Program, r *Report) {
 				return true
 			}
 			counts[name]++
-			ok = false
-			for _, a := range al {
-				if a == fi.Name {
-					ok = true
-				}
-			}
-			r.Check(ok, c, fi.Name+" calls "+name, "allowed caller", name+" may only be called from "+strings.Join(al, ", ")+": a new caller can free or take a stream id outside the request life cycle")
+			ok = p.callerWithin(fi, al, 0)
+			r.Check(ok, c, fi.Name+" calls "+name, "allowed caller (or a private helper only they call)", name+" may only be called from "+strings.Join(al, ", ")+": a new caller can free or take a stream id outside the request life cycle")
 			return true
 		})
 	})
